@@ -45,6 +45,12 @@ fn set_by_name(
                     std::slice::from_ref(&value),
                     context,
                 )?;
+            } else if context.vm.frame().code_block.strict() {
+                // `[[Set]]` on an accessor property without a setter returns `false`,
+                // which is a `TypeError` in strict mode code, exactly as on the slow path.
+                return Err(JsNativeError::typ()
+                    .with_message("cannot set property: the accessor has no setter")
+                    .into());
             }
         } else if slot.attributes.contains(SlotAttributes::PROTOTYPE) {
             let prototype = shape.prototype().expect("prototype should have value");
